@@ -1,51 +1,144 @@
-// C16 correspondence harness: libavoid geometry predicates vs the Lean model.
-// One case = one predicate call on an exactly representable input; the output line carries the
-// implementation's answer. Quick tier enumerates the integer grid exhaustively in chunks.
+// C16 correspondence harness: libavoid geometry predicates vs the Lean kernels
+// (generated from this very source by cpp2lean, and the hand model proved equal to them).
+// Exhaustive integer grid in chunks (one case per first point), all polygons with 3 (and 4)
+// vertices on the grid, plus random integer tuples up to 2^20. Answers are packed strings in
+// enumeration order; intersection points are printed as exact hex floats.
 #include "common.h"
 #include "libavoid/geometry.h"
 #include "libavoid/geomtypes.h"
 using namespace Avoid;
 
 static void pt(const Point &p) { printf(" %s %s", vh::hx(p.x).c_str(), vh::hx(p.y).c_str()); }
+static char dch(int d) { return d < 0 ? '-' : (d > 0 ? '+' : '0'); }
+
+// all predicate answers for one 4-tuple, appended to the packed strings
+struct Packed {
+    std::string vd, co, pl, si, ss, cs, vr, ip, rp;
+    std::string pts;   // intersection points (only for DO_INTERSECT), as " x y" hex pairs
+    void three(const Point &A, const Point &B, const Point &C) {
+        vd.push_back(dch(vecDir(A, B, C)));
+        co.push_back(colinear(A, B, C) ? '1' : '0');
+        pl.push_back(pointOnLine(A, B, C) ? '1' : '0');
+    }
+    void four(const Point &A, const Point &B, const Point &C, const Point &D, bool wantPts) {
+        si.push_back(segmentIntersect(A, B, C, D) ? '1' : '0');
+        for (int seen = 0; seen < 2; ++seen) {
+            bool s = seen; bool r = segmentShapeIntersect(A, B, C, D, s);
+            ss.push_back((char)('0' + (r ? 2 : 0) + (s ? 1 : 0)));
+        }
+        cs.push_back(dch(cornerSide(A, B, C, D)));
+        vr.push_back((char)('0' + (inValidRegion(false, A, B, C, D) ? 1 : 0) + (inValidRegion(true, A, B, C, D) ? 2 : 0)));
+        double x = 0, y = 0;
+        int c = segmentIntersectPoint(A, B, C, D, &x, &y);
+        ip.push_back((char)('0' + c));
+        if (c == DO_INTERSECT && wantPts) { pts += " " + vh::hx(x) + " " + vh::hx(y); }
+        double rx = 0, ry = 0;
+        int rc = rayIntersectPoint(A, B, C, D, &rx, &ry);
+        rp.push_back((char)('0' + rc));
+        if (rc == DO_INTERSECT && wantPts) { pts += " " + vh::hx(rx) + " " + vh::hx(ry); }
+    }
+    void print() {
+        printf("vecDir %s\ncolinear %s\npointOnLine %s\nsegmentIntersect %s\nsegmentShapeIntersect %s\n"
+               "cornerSide %s\ninValidRegion %s\nsegmentIntersectPoint %s\nrayIntersectPoint %s\npoints%s\n",
+               vd.c_str(), co.c_str(), pl.c_str(), si.c_str(), ss.c_str(), cs.c_str(), vr.c_str(), ip.c_str(), rp.c_str(), pts.c_str());
+    }
+};
 
 int main(int argc, char **argv) {
     vh::Args a = vh::parseArgs(argc, argv);
-    int side = (a.tier == "thorough") ? 5 : 4;         // grid {0..side-1}
+    bool thorough = (a.tier == "thorough");
+    int side = thorough ? 5 : 4;         // grid {0..side-1}^2
     long k = 0;
-    // --- exhaustive: vecDir over all triples, segmentIntersect over all 4-tuples; one case per
-    //     (first point) chunk so the stream stays small in case count
     long npts = side * side;
+    auto P = [&](long i) { return Point((double)(i / side), (double)(i % side)); };
+    // --- exhaustive 3- and 4-tuples
     for (long ia = 0; ia < npts; ++ia, ++k) {
         if (!a.want(k)) continue;
-        vh::beginCase(k, "grid-chunk");
-        printf("side %d\nchunk %ld\n", side, ia);
-        Point A(ia / side, ia % side);
-        // answers are emitted as a packed string in enumeration order
-        std::string vd, si;
-        for (long ib = 0; ib < npts; ++ib) { Point B(ib / side, ib % side);
-            for (long ic = 0; ic < npts; ++ic) { Point C(ic / side, ic % side);
-                vd.push_back("-0+"[vecDir(A, B, C) + 1]);
-                for (long id = 0; id < npts; ++id) { Point D(id / side, id % side);
-                    si.push_back(segmentIntersect(A, B, C, D) ? '1' : '0'); } } }
-        printf("vecDir %s\nsegmentIntersect %s\n", vd.c_str(), si.c_str());
+        vh::beginCase(k, "grid-tuples");
+        printf("side %d\nchunk %ld\nwantpts %d\n", side, ia, 1);
+        Packed pk;
+        for (long ib = 0; ib < npts; ++ib)
+            for (long ic = 0; ic < npts; ++ic) {
+                pk.three(P(ia), P(ib), P(ic));
+                for (long id = 0; id < npts; ++id) pk.four(P(ia), P(ib), P(ic), P(id), true);
+            }
+        pk.print();
         vh::endCase();
     }
-    // --- random large coordinates
-    long nrand = ((a.tier == "thorough") ? 200000 : 20000) * a.scale;
+    // --- polygons: all vertex triples (thorough: + all quadruples on the 4x4 grid), every grid point queried
+    {
+        int ps = 4; long np = ps * ps;
+        auto Q = [&](long i) { return Point((double)(i / ps), (double)(i % ps)); };
+        for (long i0 = 0; i0 < np; ++i0, ++k) {
+            if (!a.want(k)) continue;
+            vh::beginCase(k, "grid-polygons");
+            printf("side %d\nchunk %ld\nquads %d\n", ps, i0, thorough ? 1 : 0);
+            std::string tri, quad;
+            for (long i1 = 0; i1 < np; ++i1) for (long i2 = 0; i2 < np; ++i2) {
+                Polygon poly(3); poly.ps[0] = Q(i0); poly.ps[1] = Q(i1); poly.ps[2] = Q(i2);
+                for (long q = 0; q < np; ++q)
+                    tri.push_back((char)('0' + (inPoly(poly, Q(q), true) ? 1 : 0) + (inPoly(poly, Q(q), false) ? 2 : 0) + (inPolyGen(poly, Q(q)) ? 4 : 0)));
+                if (thorough) for (long i3 = 0; i3 < np; ++i3) {
+                    Polygon p4(4); p4.ps[0] = Q(i0); p4.ps[1] = Q(i1); p4.ps[2] = Q(i2); p4.ps[3] = Q(i3);
+                    for (long q = 0; q < np; ++q)
+                        quad.push_back((char)('0' + (inPoly(p4, Q(q), true) ? 1 : 0) + (inPoly(p4, Q(q), false) ? 2 : 0) + (inPolyGen(p4, Q(q)) ? 4 : 0)));
+                }
+            }
+            printf("tri %s\nquad %s\n", tri.c_str(), quad.empty() ? "-" : quad.c_str());
+            vh::endCase();
+        }
+    }
+    // --- random large coordinates (integers up to 2^20; products stay below 2^53)
+    long nrand = (thorough ? 200000 : 20000) * a.scale;
     if (a.n >= 0) nrand = a.n;
     const long per = 500;
     for (long c = 0; c < nrand / per; ++c, ++k) {
         if (!a.want(k)) continue;
         vh::Rng r = vh::caseRng(a.seed, k);
-        vh::beginCase(k, "random-chunk");
+        vh::beginCase(k, "random-tuples");
         for (long i = 0; i < per; ++i) {
             long m = 1L << r.range(1, 20);
-            Point P[4];
-            for (int j = 0; j < 4; ++j) P[j] = Point(r.range(-m, m), r.range(-m, m));
-            if (r.coin(1, 3)) P[2] = Point(2 * P[1].x - P[0].x, 2 * P[1].y - P[0].y);   // collinear
-            if (r.coin(1, 5)) P[3] = P[r.range(0, 2)];                                   // shared endpoint
-            printf("q"); for (int j = 0; j < 4; ++j) pt(P[j]);
-            printf(" %d %d\n", vecDir(P[0], P[1], P[2]), (int) segmentIntersect(P[0], P[1], P[2], P[3]));
+            Point p[4];
+            for (int j = 0; j < 4; ++j) p[j] = Point((double)r.range(-m, m), (double)r.range(-m, m));
+            int kind = (int)r.range(0, 9);
+            if (kind == 0) p[2] = Point(2 * p[1].x - p[0].x, 2 * p[1].y - p[0].y);            // c beyond b, collinear
+            if (kind == 1) { long t = r.range(1, 7); p[1] = Point(p[0].x + 8 * (p[2].x - p[0].x >= 0 ? 1 : -1) * (long)r.range(0, m), p[0].y); p[2] = Point(p[0].x + (p[1].x - p[0].x) * t / 8, p[0].y); } // horizontal, c on ab
+            if (kind == 2) p[3] = p[r.range(0, 2)];                                           // shared endpoint
+            if (kind == 3) { p[1] = Point(p[0].x, p[1].y); }                                  // vertical ab
+            if (kind == 4) { long t = r.range(0, 8); p[1] = Point(p[0].x + 8 * r.range(-m / 8, m / 8), p[0].y + 8 * r.range(-m / 8, m / 8));
+                             p[2] = Point(p[0].x + (p[1].x - p[0].x) * t / 8, p[0].y + (p[1].y - p[0].y) * t / 8); }   // c on segment ab (general direction)
+            if (kind == 5) { p[3] = Point(p[2].x + (p[1].x - p[0].x), p[2].y + (p[1].y - p[0].y)); }  // parallel segments
+            printf("q"); for (int j = 0; j < 4; ++j) pt(p[j]);
+            Packed pk; pk.three(p[0], p[1], p[2]); pk.four(p[0], p[1], p[2], p[3], true);
+            printf(" %s %s %s %s %s %s %s %s %s%s\n", pk.vd.c_str(), pk.co.c_str(), pk.pl.c_str(), pk.si.c_str(), pk.ss.c_str(),
+                   pk.cs.c_str(), pk.vr.c_str(), pk.ip.c_str(), pk.rp.c_str(), pk.pts.c_str());
+        }
+        vh::endCase();
+    }
+    // --- random polygons with larger coordinates (convex via hull-like construction not needed: predicates are total)
+    long npoly = (thorough ? 4000 : 600) * a.scale;
+    for (long c = 0; c < npoly / 50; ++c, ++k) {
+        if (!a.want(k)) continue;
+        vh::Rng r = vh::caseRng(a.seed, k);
+        vh::beginCase(k, "random-polygons");
+        for (int i = 0; i < 50; ++i) {
+            int n = (int)r.range(3, 7);
+            long m = 1L << r.range(2, 12);
+            Polygon poly(n);
+            if (r.coin()) {   // rectangle-like / convex clockwise (as libavoid builds shapes) else arbitrary
+                long x0 = r.range(-m, m), y0 = r.range(-m, m), w = r.range(1, m), h = r.range(1, m);
+                n = 4; poly = Polygon(4);
+                poly.ps[0] = Point(x0 + w, y0); poly.ps[1] = Point(x0 + w, y0 + h); poly.ps[2] = Point(x0, y0 + h); poly.ps[3] = Point(x0, y0);
+            } else for (int j = 0; j < n; ++j) poly.ps[j] = Point((double)r.range(-m, m), (double)r.range(-m, m));
+            printf("poly %d", n); for (int j = 0; j < n; ++j) pt(poly.ps[j]);
+            printf("\n");
+            for (int qn = 0; qn < 12; ++qn) {
+                Point q((double)r.range(-m, m), (double)r.range(-m, m));
+                if (qn < 4) q = poly.ps[r.range(0, n - 1)];                                              // a vertex
+                else if (qn < 8) { const Point &u = poly.ps[qn % n], &v = poly.ps[(qn + 1) % n]; q = Point((u.x + v.x) / 2, (u.y + v.y) / 2); }  // edge midpoint (may be k/2: exact)
+                printf("pq"); pt(q);
+                printf(" %d %d %d\n", (int)inPoly(poly, q, true), (int)inPoly(poly, q, false), (int)inPolyGen(poly, q));
+            }
         }
         vh::endCase();
     }
